@@ -11,6 +11,7 @@ let rv_of (x : Sx.t) : rv =
   | "err", [e] -> RErr (opt e)
   | "int", [n] -> RInt (z_of_int (Sx.int_of n))
   | "ptr", [p] -> RPtr (opt p)
+  | "other", [] -> ROther
   | _ -> failwith ("rv: " ^ Sx.show x)
 
 let act_of (x : Sx.t) : act =
